@@ -45,6 +45,9 @@ structure Algo where
   start : Op → PC
   label : PC → String
   exec : Sh → PC → Sh × Next PC
+  /-- the operation at `pc` is a cooperative lock acquisition that cannot proceed now (the step is
+  then a no-op and the harness reports the label with the suffix `!blocked`) -/
+  blocked : Sh → PC → Bool := fun _ _ => false
 
 /-- a finished operation with the logical time stamps of its invocation and return -/
 structure Done where
@@ -77,9 +80,7 @@ variable {A : Algo}
 /-- a thread whose current operation returned `r` at time `now + 1` moves to the first site of its
 next operation (invoked at `now + 2`) -/
 def Thread.finish (A : Algo) (t : Thread A.PC) (r : Res) (now : Nat) : Thread A.PC :=
-  let hist := match t.cur with
-    | some op => { op, res := r, inv := t.started, ret := now + 1 } :: t.hist
-    | none => t.hist
+  let hist := { op := t.cur.getD .len, res := r, inv := t.started, ret := now + 1 } :: t.hist
   match t.prog with
   | [] => { pc := none, prog := [], cur := none, started := 0, hist }
   | op :: rest => { pc := some (A.start op), prog := rest, cur := some op, started := now + 2, hist }
@@ -127,7 +128,7 @@ def stepLabel (c : Cfg A) (tid : Nat) : String :=
   | some t =>
     match t.pc with
     | none => "!done"
-    | some pc => A.label pc
+    | some pc => if A.blocked c.sh pc then A.label pc ++ "!blocked" else A.label pc
 
 def runSched (c : Cfg A) : List Nat → Cfg A
   | [] => c
